@@ -79,6 +79,7 @@ BIG_KEYS.update({
     "f": ("f", 300, False, True, ""),
     "g": ("g", 900, False, False, ""),
     "h": ("h", 300, False, False, ""),
+    "z": ("z", 0, False, False, ""),          # an empty resource is a resource too
 })
 
 
@@ -226,6 +227,9 @@ class World:
         k = self.key_of_path(filepath)
         with self.lock:
             outcome = self.plan.get(k, "ok")
+            if isinstance(outcome, list):
+                # one outcome per download attempt of this key, in the order in which the attempts start
+                outcome = outcome.pop(0) if outcome else "ok"
             self.live_attempts += 1
         try:
             self._log("start", k, uri)
@@ -401,8 +405,9 @@ class World:
     def get(self, keys, plan=None, single=False):
         c = self.cache
         P = self.project()
+        plan_rec = {k: (list(v) if isinstance(v, list) else v) for k, v in (plan or {}).items()}
         with self.lock:
-            self.plan = dict(plan or {})
+            self.plan = {k: (list(v) if isinstance(v, list) else v) for k, v in (plan or {}).items()}
             self.failed = set()
             mark = len(self.log)
             nozombie = self.live_attempts == 0
@@ -432,7 +437,7 @@ class World:
         contacted = sorted({k for (_s, stage, k, _t, _u) in log if stage == "start"})
         wrong_uri = [(k, u) for (_s, stage, k, _t, u) in log
                      if stage == "start" and u != self.stripped_uri(k)]
-        return {"op": "get", "keys": list(keys), "plan": dict(plan or {}), "result": result,
+        return {"op": "get", "keys": list(keys), "plan": plan_rec, "result": result,
                 "exc": exc, "paths": paths, "contacted": contacted, "failed": failed,
                 "rejected": rejected, "clean": not self.faulty, "nozombie": nozombie,
                 "wrong_uri": wrong_uri, "par": bool(c.config.parallel), "P": P, "Q": Q}
@@ -468,12 +473,19 @@ class World:
             exc = type(e).__name__
         return {"op": "purge", "exc": exc, "P": P, "Q": self.project()}
 
-    def touch(self, k):
+    def touch(self, k, mode="both"):
+        """the user touches the file (both times), reads it (access time only) or rewrites its metadata (modification time only):
+        in every case the file has just been used, its recency is the later of the two times"""
         P = self.project()
         p = self.final_path(k)
         if os.path.exists(p):
-            stamp(p)
-        return {"op": "touch", "key": k, "P": P, "Q": self.project()}
+            if mode == "both":
+                stamp(p)
+            else:
+                s = os.stat(p)
+                t = CLOCK.tick()
+                _orig_utime(p, ns=((t, s.st_mtime_ns) if mode == "atime" else (s.st_atime_ns, t)))
+        return {"op": "touch", "key": k, "mode": mode, "P": P, "Q": self.project()}
 
     def invalidate(self, k):
         P = self.project()
